@@ -1,6 +1,7 @@
 import InfernoVerif.Model.Reducer
 import InfernoVerif.Gen.TraceF
 import InfernoVerif.Gen.InterpolationF
+import InfernoVerif.Gen.SmoothingF
 import InfernoVerif.Drv.Proto
 /-
 Driver for C07: one `FoldReducer` over a tensor of `P` elements = `P` copies of the one-element
@@ -71,7 +72,7 @@ def mkKind (dt : Float) (toks : List String) : Option (Kind Float Obs × Params 
   | ["PT"] => some (liftObs (passKind InterpolationF.interp_previous 0 recszF floatOps), ⟨0, 0⟩)
   | ["EMA", al] => do
     let a ← pReal al
-    some (liftObs (emaKind InterpolationF.interp_linear 1 a 0 recszF floatOps), ⟨0, 0⟩)
+    some (liftObs (emaKind SmoothingF.exponential_smoothing InterpolationF.interp_linear a 0 recszF floatOps), ⟨0, 0⟩)
   | ["CA"] => some (liftObs (caKind InterpolationF.interp_linear Float.ofNat 0 recszF floatOps), ⟨0, 0⟩)
   | _ => none
 
